@@ -346,7 +346,7 @@ class CallMixin:
         if fn in self.models:
             return self.models[fn](self, args, kwargs)
         sub = self.callee_contracts.get(fn)
-        if sub is not None and self.depth > 1:
+        if sub is not None:
             return sub(self, fn, args, kwargs, defcls)
         info = extract.info_for_function(fn)
         if info is None:
